@@ -53,6 +53,10 @@ let comp_forward : comp = fun params ->
   fun toks ->
     let open Forward in
     if toks = ["dump"] then dump_map !st.fs_map ^ " | " ^ zs !st.fs_layer else
+    match toks with
+    | ["shift"; dk; dp] ->
+       let (ok, st') = TestSupport.f_shift !st (z dk) (z dp) in st := st'; bs ok
+    | _ ->
     let op = match toks with
       | ["rates"; r; lm; remb] -> ORates (z_of_dec r, z_of_dec lm, z_of_dec remb)
       | "cstore" :: s :: ts :: kf :: m :: rest ->
